@@ -1,1 +1,1308 @@
-fn main() { h_common::main_with(&[]); }
+//! End-to-end trace harness: real s2n-quic endpoints on the deterministic testing IO provider.
+//!
+//! Components (integer line protocol of h_common):
+//!   e2e_stream  - client/server stream transfer under a seeded faulty network (C01, C02, C03, C12)
+//!   e2e_amp     - handshake + non-connection datagrams, wire log per address (C11)
+//!   e2e_inject  - established connection with an on-path attacker (C06)
+//!
+//! Every random choice derives from the case's seed (own splitmix64 streams; the bach executor is
+//! seeded with the same seed).  Virtual time only.  The only randomness not under control is the
+//! TLS library's own key material (it does not influence any decision taken here; it can move
+//! handshake datagram sizes by a byte or two because ECDSA signatures are DER encoded).
+//!
+//! The traces printed here are judged by the Coq-extracted monitors of coq/model/E2E.v.  Running
+//! a monitor on a trace is testing, not proof; what is proved (coq/proofs/E2EProofs.v) is that
+//! a monitor that answers `true` implies the Prop-level statement over that trace.
+
+use bytes::Bytes;
+use h_common::{Cur, V};
+use s2n_codec::DecoderBufferMut;
+use s2n_quic::{
+    client::Connect,
+    provider::{
+        event::{self, events},
+        io::testing::{
+            self as io,
+            network::{Buffers, Network, Packet},
+            primary, spawn, test_seed, time, Handle,
+        },
+        limits::Limits,
+    },
+    stream::PeerStream,
+    Client, Server,
+};
+use s2n_quic_core::{
+    crypto::tls::testing::certificates,
+    event::api::Subject,
+    frame::{ack_elicitation::AckElicitable, FrameMut},
+    packet::{
+        interceptor::{Interceptor, Packet as IPacket},
+        number::PacketNumberSpace,
+    },
+};
+use std::{
+    collections::{HashMap, HashSet},
+    sync::{Arc, Mutex},
+    time::Duration,
+};
+
+// ------------------------------------------------------------------------------------------
+// deterministic pseudo-randomness
+// ------------------------------------------------------------------------------------------
+
+#[inline]
+fn mix(mut z: u64) -> u64 {
+    z = z.wrapping_add(0x9E37_79B9_7F4A_7C15);
+    z = (z ^ (z >> 30)).wrapping_mul(0xBF58_476D_1CE4_E5B9);
+    z = (z ^ (z >> 27)).wrapping_mul(0x94D0_49BB_1331_11EB);
+    z ^ (z >> 31)
+}
+
+#[derive(Clone)]
+struct Rng(u64);
+
+impl Rng {
+    fn new(seed: u64, stream: u64) -> Self {
+        Rng(mix(seed ^ mix(stream.wrapping_mul(0xA24B_AED4_963E_E407))))
+    }
+    fn next(&mut self) -> u64 {
+        self.0 = self.0.wrapping_add(0x9E37_79B9_7F4A_7C15);
+        mix(self.0)
+    }
+    fn below(&mut self, n: u64) -> u64 {
+        if n == 0 {
+            0
+        } else {
+            self.next() % n
+        }
+    }
+    fn permille(&mut self, p: u64) -> bool {
+        p > 0 && self.below(1000) < p
+    }
+}
+
+/// random provider of the endpoints (connection ids, reset tokens, pto jitter, ...)
+struct Random(Rng);
+
+impl s2n_quic::provider::random::Provider for Random {
+    type Generator = Self;
+    type Error = core::convert::Infallible;
+    fn start(self) -> Result<Self, Self::Error> {
+        Ok(self)
+    }
+}
+
+impl s2n_quic::provider::random::Generator for Random {
+    fn public_random_fill(&mut self, dest: &mut [u8]) {
+        for b in dest.iter_mut() {
+            *b = self.0.next() as u8;
+        }
+    }
+    fn private_random_fill(&mut self, dest: &mut [u8]) {
+        for b in dest.iter_mut() {
+            *b = (self.0.next() >> 8) as u8;
+        }
+    }
+}
+
+/// the application payload: a fixed function of (seed, stream id, direction, absolute offset);
+/// 8 bytes per 64-bit block so that a displacement by any amount shows
+#[inline]
+fn data_word(seed: u64, sid: u64, dir: u64, block: u64) -> u64 {
+    mix(seed ^ mix(sid.wrapping_mul(4).wrapping_add(dir).wrapping_add(0x5151)) ^ block.wrapping_mul(0xD6E8_FEB8_6659_FD93))
+}
+
+#[inline]
+fn data_byte(seed: u64, sid: u64, dir: u64, off: u64) -> u8 {
+    (data_word(seed, sid, dir, off / 8) >> (8 * (off % 8))) as u8
+}
+
+fn data_fill(seed: u64, sid: u64, dir: u64, off: u64, len: usize) -> Vec<u8> {
+    let mut v = Vec::with_capacity(len);
+    let mut o = off;
+    let end = off + len as u64;
+    while o < end {
+        let w = data_word(seed, sid, dir, o / 8);
+        let mut k = o % 8;
+        while k < 8 && o < end {
+            v.push((w >> (8 * k)) as u8);
+            k += 1;
+            o += 1;
+        }
+    }
+    v
+}
+
+fn checksum(data: &[u8]) -> u64 {
+    // FNV-1a, truncated to 60 bits
+    let mut h: u64 = 0xcbf2_9ce4_8422_2325;
+    for b in data {
+        h ^= *b as u64;
+        h = h.wrapping_mul(0x0000_0100_0000_01B3);
+    }
+    h & ((1 << 60) - 1)
+}
+
+fn now_us() -> u64 {
+    let t = time::now();
+    (unsafe { t.as_duration() }).as_micros() as u64
+}
+
+fn addr_id(a: &s2n_quic_core::inet::SocketAddress) -> u64 {
+    (a.port() as u64).wrapping_sub(49152)
+}
+
+// ------------------------------------------------------------------------------------------
+// shared observation state
+// ------------------------------------------------------------------------------------------
+
+const RECORD_CAP: usize = 4000;
+const PROC_CAP: usize = 6000;
+
+// frame record kinds
+const K_STREAM: i128 = 1;
+const K_RESET: i128 = 2;
+const K_MAX_STREAM_DATA: i128 = 3;
+const K_MAX_DATA: i128 = 4;
+const K_MAX_STREAMS: i128 = 5; // sid field: 0 bidirectional, 1 unidirectional
+const K_STREAM_DATA_BLOCKED: i128 = 7;
+const K_CONN_CLOSE: i128 = 8;
+const K_OTHER_AFTER_CLOSE: i128 = 9;
+const K_TP_MAX_DATA: i128 = 10;
+const K_TP_SD_BIDI_LOCAL: i128 = 11;
+const K_TP_SD_BIDI_REMOTE: i128 = 12;
+const K_TP_SD_UNI: i128 = 13;
+const K_TP_STREAMS_BIDI: i128 = 14;
+const K_TP_STREAMS_UNI: i128 = 15;
+const K_STOP_SENDING: i128 = 16;
+
+#[derive(Default, Clone)]
+struct Flow {
+    sid: u64,
+    dir: u64, // 0 client->server, 1 server->client
+    expected: u64,
+    written: u64,
+    fin_written: u64,
+    read: u64,
+    first_wrong: i128,
+    clean_eos: u64,
+    err_w: u64,
+    err_r: u64,
+}
+
+#[derive(Default, Clone)]
+struct Ep {
+    conn_started: u64,
+    closed: u64,
+    closed_class: u64,
+    closed_us: u64,
+    last_rx_us: u64,
+    idle_base_us: u64, // last processed packet, or the first ack-eliciting send after it
+    sent_since_rx: bool,
+    max_pto_us: u64,
+    tasks_started: u64,
+    tasks_done: u64,
+    last_task_done_us: u64,
+    close_sent: bool,
+    // per (stream id): bytes first sent at each offset (0xFFFF = never sent)
+    first_sent: HashMap<u64, Vec<u16>>,
+    // C06: processed packets (space, pn, payload checksum) and emitted packets
+    processed: Vec<(u64, u64, u64)>,
+    emitted: HashSet<(u64, u64, u64)>,
+    handshake_rx_us: i128, // first Handshake packet received (server: address validated)
+}
+
+#[derive(Default)]
+struct Shared {
+    seed: u64,
+    flows: Vec<Flow>,
+    ep: [Ep; 2],
+    last_progress_us: u64,
+    records: Vec<[i128; 11]>,
+    capped: bool,
+    connect_ok: u64,
+    watchdog_hit: u64,
+    opened: Vec<u64>, // stream ids in the order the client's open calls returned them
+    // wire log of e2e_amp: [t_us, kind, src, dst, len, first byte, class]
+    wire: Vec<[i128; 7]>,
+    wire_capped: bool,
+    wire_on: bool,
+}
+
+type Sh = Arc<Mutex<Shared>>;
+
+impl Shared {
+    fn flow(&mut self, sid: u64, dir: u64) -> &mut Flow {
+        if let Some(i) = self.flows.iter().position(|f| f.sid == sid && f.dir == dir) {
+            return &mut self.flows[i];
+        }
+        self.flows.push(Flow { sid, dir, first_wrong: -1, ..Default::default() });
+        self.flows.last_mut().unwrap()
+    }
+    fn record(&mut self, r: [i128; 11]) {
+        if self.records.len() < RECORD_CAP {
+            self.records.push(r);
+        } else {
+            self.capped = true;
+        }
+    }
+    fn wire(&mut self, r: [i128; 7]) {
+        if !self.wire_on {
+            return;
+        }
+        if self.wire.len() < 3000 {
+            self.wire.push(r);
+        } else {
+            self.wire_capped = true;
+        }
+    }
+}
+
+fn err_class(e: &s2n_quic::connection::Error) -> u64 {
+    use s2n_quic::connection::Error as E;
+    match e {
+        E::Closed { .. } => 1,
+        E::Transport { .. } => 2,
+        E::Application { .. } => 3,
+        E::StatelessReset { .. } => 4,
+        E::IdleTimerExpired { .. } => 5,
+        E::NoValidPath { .. } => 6,
+        E::StreamIdExhausted { .. } => 7,
+        E::MaxHandshakeDurationExceeded { .. } => 8,
+        E::ImmediateClose { .. } => 9,
+        E::EndpointClosing { .. } => 10,
+        E::InvalidConfiguration { .. } => 11,
+        E::Unspecified { .. } => 12,
+        _ => 13,
+    }
+}
+
+// ------------------------------------------------------------------------------------------
+// event subscriber
+// ------------------------------------------------------------------------------------------
+
+struct Sub {
+    ep: usize,
+    sh: Sh,
+    // the event's TransportParameters carry no initial_max_data field: the peer's configured
+    // connection window (both endpoints of a run are configured by this harness) stands in for it
+    peer_conn_window: u64,
+}
+
+impl event::Subscriber for Sub {
+    type ConnectionContext = ();
+
+    fn create_connection_context(&mut self, _meta: &events::ConnectionMeta, _info: &events::ConnectionInfo) -> Self::ConnectionContext {
+        let mut s = self.sh.lock().unwrap();
+        s.ep[self.ep].conn_started += 1;
+    }
+
+    fn on_connection_closed(&mut self, _c: &mut (), _meta: &events::ConnectionMeta, event: &events::ConnectionClosed) {
+        let mut s = self.sh.lock().unwrap();
+        let e = &mut s.ep[self.ep];
+        if e.closed == 0 {
+            e.closed = 1;
+            e.closed_class = err_class(&event.error);
+            e.closed_us = now_us();
+        }
+    }
+
+    fn on_recovery_metrics(&mut self, _c: &mut (), _meta: &events::ConnectionMeta, event: &events::RecoveryMetrics) {
+        // PTO = smoothed_rtt + max(4*rttvar, 1ms) + max_ack_delay  (RFC 9002 6.2.1), without backoff
+        let pto = event.smoothed_rtt.as_micros() as u64
+            + (4 * event.rtt_variance.as_micros() as u64).max(1000)
+            + event.max_ack_delay.as_micros() as u64;
+        let mut s = self.sh.lock().unwrap();
+        let e = &mut s.ep[self.ep];
+        e.max_pto_us = e.max_pto_us.max(pto);
+    }
+
+    fn on_transport_parameters_received(&mut self, _c: &mut (), _meta: &events::ConnectionMeta, event: &events::TransportParametersReceived) {
+        let tp = &event.transport_parameters;
+        let mut s = self.sh.lock().unwrap();
+        let ep = self.ep as i128;
+        for (k, v) in [
+            (K_TP_MAX_DATA, self.peer_conn_window),
+            (K_TP_SD_BIDI_LOCAL, tp.initial_max_stream_data_bidi_local),
+            (K_TP_SD_BIDI_REMOTE, tp.initial_max_stream_data_bidi_remote),
+            (K_TP_SD_UNI, tp.initial_max_stream_data_uni),
+            (K_TP_STREAMS_BIDI, tp.initial_max_streams_bidi),
+            (K_TP_STREAMS_UNI, tp.initial_max_streams_uni),
+        ] {
+            s.record([ep, 1, k, 0, 0, 0, 0, 0, v as i128, -1, -1]);
+        }
+    }
+
+    fn on_packet_received(&mut self, _c: &mut (), _meta: &events::ConnectionMeta, event: &events::PacketReceived) {
+        if let events::PacketHeader::Handshake { .. } = event.packet_header {
+            let mut s = self.sh.lock().unwrap();
+            if s.ep[self.ep].handshake_rx_us < 0 {
+                let t = now_us() as i128;
+                s.ep[self.ep].handshake_rx_us = t;
+                if self.ep == 1 {
+                    // marker in the wire log: the server processed the first client Handshake packet
+                    s.wire([t, 2, 0, 0, 0, 0, 0]);
+                }
+            }
+        }
+    }
+}
+
+// ------------------------------------------------------------------------------------------
+// packet interceptor: cleartext frames of sent / processed packets
+// ------------------------------------------------------------------------------------------
+
+struct Icpt {
+    ep: usize,
+    sh: Sh,
+    full: bool, // record frames (stream mode); false: only packet level bookkeeping
+}
+
+fn space_id(s: PacketNumberSpace) -> u64 {
+    match s {
+        PacketNumberSpace::Initial => 0,
+        PacketNumberSpace::Handshake => 1,
+        PacketNumberSpace::ApplicationData => 2,
+    }
+}
+
+impl Icpt {
+    fn frames(&mut self, tx: bool, payload: &[u8]) -> bool {
+        // returns whether the packet is ack eliciting
+        let mut copy = payload.to_vec();
+        let mut buf = DecoderBufferMut::new(&mut copy);
+        let mut eliciting = false;
+        let mut s = self.sh.lock().unwrap();
+        let seed = s.seed;
+        let ep = self.ep;
+        let dir = if tx { 0 } else { 1 };
+        while !buf.is_empty() {
+            let (frame, rest) = match buf.decode::<FrameMut>() {
+                Ok(x) => x,
+                Err(_) => break,
+            };
+            buf = rest;
+            if frame.ack_elicitation().is_ack_eliciting() {
+                eliciting = true;
+            }
+            if std::env::var_os("E2E_DEBUG").is_some() && !matches!(frame, FrameMut::Padding(_)) {
+                eprintln!("{} ep{} {} {:?}", now_us(), ep, if tx { "tx" } else { "rx" }, frame);
+            }
+            if !self.full {
+                continue;
+            }
+            let e = ep as i128;
+            let closed_before = s.ep[ep].close_sent;
+            match &frame {
+                FrameMut::Padding(_) => {}
+                FrameMut::Stream(f) if tx => {
+                    let sid = f.stream_id.as_u64();
+                    let off = f.offset.as_u64();
+                    let data: &[u8] = f.data.as_less_safe_slice();
+                    // the direction of the data this endpoint sends
+                    let ddir = ep as u64;
+                    let mut bad_w: i128 = -1;
+                    let mut bad_f: i128 = -1;
+                    {
+                        let fs = s.ep[ep].first_sent.entry(sid).or_default();
+                        let end = off as usize + data.len();
+                        if fs.len() < end {
+                            fs.resize(end, 0xFFFF);
+                        }
+                        for (i, b) in data.iter().enumerate() {
+                            let o = off + i as u64;
+                            if bad_w < 0 && *b != data_byte(seed, sid, ddir, o) {
+                                bad_w = o as i128;
+                            }
+                            let slot = &mut fs[o as usize];
+                            if *slot == 0xFFFF {
+                                *slot = *b as u16;
+                            } else if bad_f < 0 && *slot != *b as u16 {
+                                bad_f = o as i128;
+                            }
+                        }
+                    }
+                    s.record([e, dir, K_STREAM, sid as i128, off as i128, data.len() as i128, f.is_fin as i128, checksum(data) as i128, 0, bad_w, bad_f]);
+                }
+                FrameMut::Stream(_) => {}
+                FrameMut::ResetStream(f) => {
+                    s.record([e, dir, K_RESET, f.stream_id.as_u64() as i128, f.final_size.as_u64() as i128, 0, 0, 0, f.application_error_code.as_u64() as i128, -1, -1]);
+                }
+                FrameMut::StopSending(f) => {
+                    s.record([e, dir, K_STOP_SENDING, f.stream_id.as_u64() as i128, 0, 0, 0, 0, f.application_error_code.as_u64() as i128, -1, -1]);
+                }
+                FrameMut::MaxStreamData(f) => {
+                    s.record([e, dir, K_MAX_STREAM_DATA, f.stream_id.as_u64() as i128, 0, 0, 0, 0, f.maximum_stream_data.as_u64() as i128, -1, -1]);
+                }
+                FrameMut::MaxData(f) => {
+                    s.record([e, dir, K_MAX_DATA, 0, 0, 0, 0, 0, f.maximum_data.as_u64() as i128, -1, -1]);
+                }
+                FrameMut::MaxStreams(f) => {
+                    let ty = if f.stream_type.is_bidirectional() { 0 } else { 1 };
+                    s.record([e, dir, K_MAX_STREAMS, ty, 0, 0, 0, 0, f.maximum_streams.as_u64() as i128, -1, -1]);
+                }
+                FrameMut::StreamDataBlocked(f) if tx => {
+                    s.record([e, dir, K_STREAM_DATA_BLOCKED, f.stream_id.as_u64() as i128, 0, 0, 0, 0, f.stream_data_limit.as_u64() as i128, -1, -1]);
+                }
+                FrameMut::ConnectionClose(f) if tx => {
+                    s.ep[ep].close_sent = true;
+                    s.record([e, dir, K_CONN_CLOSE, 0, 0, 0, 0, 0, f.error_code.as_u64() as i128, -1, -1]);
+                }
+                _ => {
+                    if tx && closed_before {
+                        s.record([e, dir, K_OTHER_AFTER_CLOSE, 0, 0, 0, 0, 0, 0, -1, -1]);
+                    }
+                }
+            }
+        }
+        eliciting
+    }
+}
+
+impl Interceptor for Icpt {
+    fn intercept_rx_payload<'a>(&mut self, _subject: &Subject, packet: &IPacket, payload: DecoderBufferMut<'a>) -> DecoderBufferMut<'a> {
+        let bytes = payload.into_less_safe_slice();
+        let t = now_us();
+        {
+            let mut s = self.sh.lock().unwrap();
+            let e = &mut s.ep[self.ep];
+            e.last_rx_us = t;
+            e.idle_base_us = t;
+            e.sent_since_rx = false;
+            if e.processed.len() < PROC_CAP {
+                e.processed.push((space_id(packet.number.space()), packet.number.as_u64(), checksum(bytes)));
+            }
+        }
+        self.frames(false, bytes);
+        DecoderBufferMut::new(bytes)
+    }
+
+    fn intercept_tx_payload(&mut self, _subject: &Subject, packet: &IPacket, payload: &mut s2n_codec::encoder::scatter::Buffer) {
+        let bytes = payload.flatten().as_mut_slice().to_vec();
+        {
+            let mut s = self.sh.lock().unwrap();
+            s.ep[self.ep].emitted.insert((space_id(packet.number.space()), packet.number.as_u64(), checksum(&bytes)));
+        }
+        let eliciting = self.frames(true, &bytes);
+        if eliciting {
+            let mut s = self.sh.lock().unwrap();
+            let e = &mut s.ep[self.ep];
+            if !e.sent_since_rx {
+                // RFC 9000 10.1: the idle timer also restarts when sending an ack-eliciting packet
+                // if no other ack-eliciting packet was sent since last receiving and processing one
+                e.sent_since_rx = true;
+                e.idle_base_us = now_us();
+            }
+        }
+    }
+}
+
+// ------------------------------------------------------------------------------------------
+// the network
+// ------------------------------------------------------------------------------------------
+
+#[derive(Clone, Default)]
+struct NetCfg {
+    seed: u64,
+    drop_pm: u64,
+    dup_pm: u64,
+    corrupt_pm: u64,
+    jitter_ms: u64,
+    delay_ms: u64,
+    max_udp: usize,
+    fault_until_us: u64, // random faults (drop/dup/corrupt/jitter) only before this time
+    bh_start_us: u64,    // 0 = no blackhole
+    bh_end_us: u64,      // u64::MAX = forever
+    // attacker (e2e_inject)
+    inject_pm: u64,
+    inject_from_us: u64,
+    inject_until_us: u64,
+    inject_kinds: u64, // bit mask over the kinds below
+    // faults apply only to these two hosts' traffic when set (raw senders get a clean path)
+    fault_hosts: Option<(u64, u64)>,
+}
+
+const INJ_RANDOM: usize = 0;
+const INJ_FLIP: usize = 1;
+const INJ_TRUNC: usize = 2;
+const INJ_SPLICE: usize = 3;
+const INJ_REPLAY: usize = 4;
+const INJ_HDR_RANDOM: usize = 5; // genuine header bytes, random body
+const INJ_KINDS: usize = 6;
+
+struct Net {
+    cfg: NetCfg,
+    rng: Rng,
+    sh: Sh,
+    history: Vec<Packet>, // genuine datagrams seen (bounded), material for the attacker
+    injected: Arc<Mutex<[u64; INJ_KINDS]>>,
+}
+
+fn classify(d: &[u8]) -> i128 {
+    // 0 short header, 1 contains an Initial packet, 2 long header without Initial, 3 version negotiation, 4 too short / undecodable
+    if d.is_empty() {
+        return 4;
+    }
+    if d[0] & 0x80 == 0 {
+        return 0;
+    }
+    let mut pos = 0usize;
+    let mut seen_initial = false;
+    let mut first = true;
+    while pos < d.len() {
+        let p = &d[pos..];
+        if p[0] & 0x80 == 0 {
+            break; // a short header packet ends the datagram
+        }
+        if p.len() < 7 {
+            return if first { 4 } else if seen_initial { 1 } else { 2 };
+        }
+        let version = u32::from_be_bytes([p[1], p[2], p[3], p[4]]);
+        if version == 0 {
+            return if first { 3 } else if seen_initial { 1 } else { 2 };
+        }
+        let ty = (p[0] >> 4) & 3;
+        let mut i = 5;
+        let dcil = p[i] as usize;
+        i += 1 + dcil;
+        if i >= p.len() {
+            return if first { 4 } else if seen_initial { 1 } else { 2 };
+        }
+        let scil = p[i] as usize;
+        i += 1 + scil;
+        if ty == 0 {
+            seen_initial = true;
+            // token
+            match varint(p, i) {
+                Some((tl, n)) => i += n + tl as usize,
+                None => return 1,
+            }
+        } else if ty == 3 {
+            // retry: rest of the datagram
+            return if seen_initial { 1 } else { 2 };
+        }
+        match varint(p, i) {
+            Some((l, n)) => {
+                pos += i + n + l as usize;
+            }
+            None => break,
+        }
+        first = false;
+    }
+    if seen_initial {
+        1
+    } else {
+        2
+    }
+}
+
+fn varint(p: &[u8], i: usize) -> Option<(u64, usize)> {
+    let b = *p.get(i)?;
+    let n = 1usize << (b >> 6);
+    if i + n > p.len() {
+        return None;
+    }
+    let mut v = (b & 0x3f) as u64;
+    for k in 1..n {
+        v = (v << 8) | p[i + k] as u64;
+    }
+    Some((v, n))
+}
+
+impl Net {
+    fn new(cfg: NetCfg, sh: Sh) -> Self {
+        let rng = Rng::new(cfg.seed, 77);
+        Net { cfg, rng, sh, history: vec![], injected: Default::default() }
+    }
+
+    fn deliver(&self, buffers: &Buffers, now_ts: s2n_quic_core::time::Timestamp, delay_us: u64, mut pkt: Packet) {
+        pkt.switch();
+        let buffers = buffers.clone();
+        let sh = self.sh.clone();
+        let at = now_ts + Duration::from_micros(delay_us);
+        spawn(async move {
+            if delay_us > 0 {
+                time::delay_until(at).await;
+            }
+            {
+                let mut s = sh.lock().unwrap();
+                if s.wire_on {
+                    let src = addr_id(&pkt.path.remote_address.0) as i128;
+                    let dst = addr_id(&pkt.path.local_address.0) as i128;
+                    let fb = pkt.payload.first().copied().unwrap_or(0) as i128;
+                    let r = [now_us() as i128, 1, src, dst, pkt.payload.len() as i128, fb, classify(&pkt.payload)];
+                    s.wire(r);
+                }
+            }
+            buffers.rx(*pkt.path.local_address, |q| q.enqueue(pkt));
+        });
+    }
+
+    fn garble(&mut self, kind: usize, base: &Packet) -> Option<Packet> {
+        let mut p = base.clone();
+        let n = p.payload.len();
+        match kind {
+            INJ_RANDOM => {
+                let len = 1 + self.rng.below(1400) as usize;
+                p.payload = (0..len).map(|_| self.rng.next() as u8).collect();
+            }
+            INJ_FLIP => {
+                if n == 0 {
+                    return None;
+                }
+                let flips = 1 + self.rng.below(3);
+                for _ in 0..flips {
+                    let i = self.rng.below(n as u64) as usize;
+                    p.payload[i] ^= 1 << self.rng.below(8);
+                }
+            }
+            INJ_TRUNC => {
+                if n < 2 {
+                    return None;
+                }
+                let keep = 1 + self.rng.below(n as u64 - 1) as usize;
+                p.payload.truncate(keep);
+            }
+            INJ_SPLICE => {
+                // head of this datagram, tail of another genuine one (towards the same destination)
+                let same: Vec<usize> = (0..self.history.len()).filter(|i| self.history[*i].path.remote_address == base.path.remote_address).collect();
+                if same.is_empty() || n < 2 {
+                    return None;
+                }
+                let o = &self.history[same[self.rng.below(same.len() as u64) as usize]];
+                if o.payload == base.payload {
+                    return None;
+                }
+                let cut = 1 + self.rng.below(n as u64 - 1) as usize;
+                let ocut = self.rng.below(o.payload.len() as u64) as usize;
+                let mut v = p.payload[..cut].to_vec();
+                v.extend_from_slice(&o.payload[ocut..]);
+                if v == base.payload || v == o.payload {
+                    return None;
+                }
+                p.payload = v;
+            }
+            INJ_REPLAY => {
+                let same: Vec<usize> = (0..self.history.len()).filter(|i| self.history[*i].path.remote_address == base.path.remote_address).collect();
+                if same.is_empty() {
+                    return None;
+                }
+                p = self.history[same[self.rng.below(same.len() as u64) as usize]].clone();
+            }
+            INJ_HDR_RANDOM => {
+                if n < 24 {
+                    return None;
+                }
+                let keep = 1 + self.rng.below(20) as usize;
+                for i in keep..n {
+                    p.payload[i] = self.rng.next() as u8;
+                }
+            }
+            _ => return None,
+        }
+        Some(p)
+    }
+
+    fn process(&mut self, buffers: &Buffers, now_ts: s2n_quic_core::time::Timestamp, now: u64, pkt: Packet) -> usize {
+        let c = self.cfg.clone();
+        let src = addr_id(&pkt.path.local_address.0);
+        let dst = addr_id(&pkt.path.remote_address.0);
+        {
+            let mut s = self.sh.lock().unwrap();
+            if s.wire_on {
+                let fb = pkt.payload.first().copied().unwrap_or(0) as i128;
+                let r = [now as i128, 0, src as i128, dst as i128, pkt.payload.len() as i128, fb, classify(&pkt.payload)];
+                s.wire(r);
+            }
+        }
+        let faulty_path = match c.fault_hosts {
+            None => true,
+            Some((a, b)) => (src == a && dst == b) || (src == b && dst == a),
+        };
+        let base_delay = c.delay_ms * 1000;
+        if !faulty_path {
+            self.deliver(buffers, now_ts, base_delay, pkt);
+            return 1;
+        }
+        if c.bh_start_us > 0 && now >= c.bh_start_us && now < c.bh_end_us {
+            return 0;
+        }
+        if pkt.payload.len() > c.max_udp {
+            return 0;
+        }
+        let mut count = 0;
+        // attacker
+        if c.inject_pm > 0 && now >= c.inject_from_us && now < c.inject_until_us {
+            if self.history.len() < 64 {
+                self.history.push(pkt.clone());
+            } else {
+                let i = self.rng.below(64) as usize;
+                self.history[i] = pkt.clone();
+            }
+            if self.rng.permille(c.inject_pm) {
+                let n = 1 + self.rng.below(3);
+                for _ in 0..n {
+                    let kinds: Vec<usize> = (0..INJ_KINDS).filter(|k| c.inject_kinds & (1 << k) != 0).collect();
+                    if kinds.is_empty() {
+                        break;
+                    }
+                    let kind = kinds[self.rng.below(kinds.len() as u64) as usize];
+                    if let Some(p) = self.garble(kind, &pkt) {
+                        self.injected.lock().unwrap()[kind] += 1;
+                        let d = base_delay + self.rng.below(2 * base_delay + 1000);
+                        self.deliver(buffers, now_ts, d, p);
+                        count += 1;
+                    }
+                }
+            }
+        }
+        let faults = now < c.fault_until_us;
+        if faults && self.rng.permille(c.drop_pm) {
+            return count;
+        }
+        let mut copies = 1;
+        if faults {
+            while copies < 3 && self.rng.permille(c.dup_pm) {
+                copies += 1;
+            }
+        }
+        for _ in 0..copies {
+            let mut p = pkt.clone();
+            if faults && !p.payload.is_empty() && self.rng.permille(c.corrupt_pm) {
+                let n = p.payload.len() as u64;
+                match self.rng.below(3) {
+                    0 => {
+                        let i = self.rng.below(n) as usize;
+                        p.payload[i] ^= 1 << self.rng.below(8);
+                    }
+                    1 => {
+                        let keep = self.rng.below(n) as usize;
+                        p.payload.truncate(keep.max(1));
+                    }
+                    _ => {
+                        let k = 1 + self.rng.below(8);
+                        for _ in 0..k {
+                            let i = self.rng.below(n) as usize;
+                            p.payload[i] = self.rng.next() as u8;
+                        }
+                    }
+                }
+            }
+            let mut d = base_delay;
+            if faults && c.jitter_ms > 0 {
+                d += self.rng.below(c.jitter_ms * 1000 + 1);
+            }
+            self.deliver(buffers, now_ts, d, p);
+            count += 1;
+        }
+        count
+    }
+}
+
+impl Network for Net {
+    fn execute(&mut self, buffers: &Buffers) -> usize {
+        let mut pkts: Vec<Packet> = Vec::new();
+        buffers.drain_pending_transmissions(|p| {
+            pkts.push(p);
+            Ok(())
+        });
+        if pkts.is_empty() {
+            return 0;
+        }
+        // the tx queues live in a HashMap with a randomly keyed hasher: restore a canonical order
+        // (per-source FIFO is preserved by the stable sort)
+        pkts.sort_by_key(|p| addr_id(&p.path.local_address.0));
+        let now_ts = time::now();
+        let now = now_us();
+        let mut count = 0;
+        for p in pkts {
+            count += self.process(buffers, now_ts, now, p);
+        }
+        count
+    }
+}
+
+// ------------------------------------------------------------------------------------------
+// application logic shared by e2e_stream / e2e_inject
+// ------------------------------------------------------------------------------------------
+
+#[derive(Clone, Default)]
+struct AppCfg {
+    seed: u64,
+    n_bidi: u64,
+    n_uni: u64,
+    bytes: u64,
+    stream_window: u64,
+    conn_window: u64,
+    max_streams: u64,
+    chunk: u64,
+    read_size: u64,
+    idle_ms: u64,
+    watchdog_us: u64,
+    close_at_end: bool,
+    full_records: bool,
+    finish_mode: u64, // 0: close().await (finish + flush in one request); 1: finish() then flush().await
+}
+
+fn flow_size(c: &AppCfg, sid: u64, dir: u64) -> u64 {
+    let idx = sid / 4;
+    let r = mix(c.seed ^ mix(sid * 2 + dir + 0x77));
+    match (idx + dir) % 4 {
+        0 => c.bytes,
+        1 => r % (c.bytes + 1),
+        2 => c.bytes / 3,
+        _ => r % 50,
+    }
+}
+
+fn limits(c: &AppCfg) -> Limits {
+    Limits::new()
+        .with_data_window(c.conn_window)
+        .unwrap()
+        .with_bidirectional_local_data_window(c.stream_window)
+        .unwrap()
+        .with_bidirectional_remote_data_window(c.stream_window)
+        .unwrap()
+        .with_unidirectional_data_window(c.stream_window)
+        .unwrap()
+        .with_max_open_remote_bidirectional_streams(c.max_streams)
+        .unwrap()
+        .with_max_open_remote_unidirectional_streams(c.max_streams)
+        .unwrap()
+        .with_max_open_local_bidirectional_streams(1000)
+        .unwrap()
+        .with_max_open_local_unidirectional_streams(1000)
+        .unwrap()
+        .with_max_idle_timeout(Duration::from_millis(c.idle_ms))
+        .unwrap()
+}
+
+fn task_begin(sh: &Sh, ep: usize) {
+    sh.lock().unwrap().ep[ep].tasks_started += 1;
+}
+
+fn task_end(sh: &Sh, ep: usize) {
+    let mut s = sh.lock().unwrap();
+    s.ep[ep].tasks_done += 1;
+    s.ep[ep].last_task_done_us = now_us();
+}
+
+async fn writer(mut send: s2n_quic::stream::SendStream, c: AppCfg, sh: Sh, ep: usize, sid: u64, dir: u64) {
+    let total = flow_size(&c, sid, dir);
+    {
+        let mut s = sh.lock().unwrap();
+        let f = s.flow(sid, dir);
+        f.expected = total;
+    }
+    let mut rng = Rng::new(c.seed, 1000 + sid * 2 + dir);
+    let mut off = 0u64;
+    let mut ok = true;
+    while off < total {
+        let n = (1 + rng.below(2 * c.chunk.max(1))).min(total - off);
+        let data = Bytes::from(data_fill(c.seed, sid, dir, off, n as usize));
+        {
+            // the bytes are handed to the API now: from here on the reader may see them
+            let mut s = sh.lock().unwrap();
+            s.flow(sid, dir).written = off + n;
+        }
+        match send.send(data).await {
+            Ok(()) => {
+                off += n;
+                let mut s = sh.lock().unwrap();
+                s.last_progress_us = now_us();
+            }
+            Err(_) => {
+                ok = false;
+                break;
+            }
+        }
+    }
+    if ok && c.finish_mode == 0 {
+        // finish and wait until everything including the FIN is acknowledged
+        match send.close().await {
+            Ok(()) => sh.lock().unwrap().flow(sid, dir).fin_written = 1,
+            Err(_) => {
+                // the FIN was requested even if the acknowledgement never came
+                sh.lock().unwrap().flow(sid, dir).fin_written = 1;
+                ok = false;
+            }
+        }
+    } else if ok {
+        match send.finish() {
+            Ok(()) => {
+                sh.lock().unwrap().flow(sid, dir).fin_written = 1;
+                if send.flush().await.is_err() {
+                    ok = false;
+                }
+            }
+            Err(_) => ok = false,
+        }
+    }
+    {
+        let mut s = sh.lock().unwrap();
+        if !ok {
+            s.flow(sid, dir).err_w = 1;
+        } else {
+            s.last_progress_us = now_us();
+        }
+    }
+    task_end(&sh, ep);
+}
+
+async fn reader(mut recv: s2n_quic::stream::ReceiveStream, c: AppCfg, sh: Sh, ep: usize, sid: u64, dir: u64) {
+    use futures::io::AsyncReadExt;
+    {
+        let mut s = sh.lock().unwrap();
+        let _ = s.flow(sid, dir);
+    }
+    let mut rng = Rng::new(c.seed, 5000 + sid * 2 + dir);
+    let mut off = 0u64;
+    let mut buf = vec![0u8; (2 * c.read_size as usize).max(1)];
+    loop {
+        let got: Result<Option<Vec<u8>>, ()> = if c.read_size == 0 {
+            match recv.receive().await {
+                Ok(Some(b)) => Ok(Some(b.to_vec())),
+                Ok(None) => Ok(None),
+                Err(_) => Err(()),
+            }
+        } else {
+            let n = 1 + rng.below(2 * c.read_size) as usize;
+            match recv.read(&mut buf[..n]).await {
+                Ok(0) => Ok(None),
+                Ok(k) => Ok(Some(buf[..k].to_vec())),
+                Err(_) => Err(()),
+            }
+        };
+        let mut s = sh.lock().unwrap();
+        let seed = s.seed;
+        match got {
+            Ok(Some(bytes)) => {
+                let f = s.flow(sid, dir);
+                for (i, b) in bytes.iter().enumerate() {
+                    if f.first_wrong < 0 && *b != data_byte(seed, sid, dir, off + i as u64) {
+                        f.first_wrong = (off + i as u64) as i128;
+                    }
+                }
+                off += bytes.len() as u64;
+                f.read = off;
+                s.last_progress_us = now_us();
+            }
+            Ok(None) => {
+                s.flow(sid, dir).clean_eos = 1;
+                s.last_progress_us = now_us();
+                break;
+            }
+            Err(()) => {
+                s.flow(sid, dir).err_r = 1;
+                break;
+            }
+        }
+    }
+    task_end(&sh, ep);
+}
+
+fn start_server(handle: &Handle, c: &AppCfg, sh: &Sh, tls: (String, String)) -> io::Result<std::net::SocketAddr> {
+    let mut server = Server::builder()
+        .with_io(handle.builder().build()?)?
+        .with_tls((tls.0.as_str(), tls.1.as_str()))?
+        .with_event(Sub { ep: 1, sh: sh.clone(), peer_conn_window: c.conn_window })?
+        .with_random(Random(Rng::new(c.seed, 2)))?
+        .with_limits(limits(c))?
+        .with_packet_interceptor(Icpt { ep: 1, sh: sh.clone(), full: c.full_records })?
+        .start()?;
+    let addr = server.local_addr()?;
+    let c = c.clone();
+    let sh = sh.clone();
+    spawn(async move {
+        while let Some(mut conn) = server.accept().await {
+            let c = c.clone();
+            let sh = sh.clone();
+            spawn(async move {
+                // this task owns the connection handle: the connection stays open while it waits
+                loop {
+                    match conn.accept().await {
+                        Ok(Some(PeerStream::Bidirectional(stream))) => {
+                            let sid = stream.id();
+                            let (recv, send) = stream.split();
+                            task_begin(&sh, 1);
+                            task_begin(&sh, 1);
+                            spawn(reader(recv, c.clone(), sh.clone(), 1, sid, 0));
+                            spawn(writer(send, c.clone(), sh.clone(), 1, sid, 1));
+                        }
+                        Ok(Some(PeerStream::Receive(recv))) => {
+                            let sid = recv.id();
+                            task_begin(&sh, 1);
+                            spawn(reader(recv, c.clone(), sh.clone(), 1, sid, 0));
+                        }
+                        Ok(None) | Err(_) => break,
+                    }
+                }
+                // keep the handle until the simulation ends
+                time::delay(Duration::from_secs(1_000_000)).await;
+                drop(conn);
+            });
+        }
+    });
+    Ok(addr)
+}
+
+fn start_client(handle: &Handle, c: &AppCfg, sh: &Sh, addr: std::net::SocketAddr) -> io::Result<()> {
+    let client = Client::builder()
+        .with_io(handle.builder().build()?)?
+        .with_tls(certificates::CERT_PEM)?
+        .with_event(Sub { ep: 0, sh: sh.clone(), peer_conn_window: c.conn_window })?
+        .with_random(Random(Rng::new(c.seed, 3)))?
+        .with_limits(limits(c))?
+        .with_packet_interceptor(Icpt { ep: 0, sh: sh.clone(), full: c.full_records })?
+        .start()?;
+    let c = c.clone();
+    let sh = sh.clone();
+    // the controller is the only primary task: the simulation ends when it returns
+    primary::spawn(async move {
+        let _client_keep = client;
+        let connect = Connect::new(addr).with_server_name("localhost");
+        let expected_server_tasks = 2 * c.n_bidi + c.n_uni;
+        let conn = match _client_keep.connect(connect).await {
+            Ok(conn) => Some(conn),
+            Err(_) => None,
+        };
+        if let Some(conn) = &conn {
+            sh.lock().unwrap().connect_ok = 1;
+            let mut opener = conn.handle();
+            let c2 = c.clone();
+            let sh2 = sh.clone();
+            // stream opening may block on MAX_STREAMS credit: its own task
+            let total_streams = c.n_bidi + c.n_uni;
+            task_begin(&sh, 0);
+            spawn(async move {
+                let mut nb = 0;
+                let mut nu = 0;
+                for i in 0..total_streams {
+                    // interleave the two stream types
+                    let uni = (i % 3 == 2 && nu < c2.n_uni) || nb >= c2.n_bidi;
+                    if uni {
+                        nu += 1;
+                        match opener.open_send_stream().await {
+                            Ok(send) => {
+                                let sid = send.id();
+                                sh2.lock().unwrap().opened.push(sid);
+                                task_begin(&sh2, 0);
+                                spawn(writer(send, c2.clone(), sh2.clone(), 0, sid, 0));
+                            }
+                            Err(_) => break,
+                        }
+                    } else {
+                        nb += 1;
+                        match opener.open_bidirectional_stream().await {
+                            Ok(stream) => {
+                                let sid = stream.id();
+                                sh2.lock().unwrap().opened.push(sid);
+                                let (recv, send) = stream.split();
+                                task_begin(&sh2, 0);
+                                task_begin(&sh2, 0);
+                                spawn(writer(send, c2.clone(), sh2.clone(), 0, sid, 0));
+                                spawn(reader(recv, c2.clone(), sh2.clone(), 0, sid, 1));
+                            }
+                            Err(_) => break,
+                        }
+                    }
+                }
+                task_end(&sh2, 0);
+            });
+        }
+        // wait until every application task has resolved (or the watchdog)
+        loop {
+            time::delay(Duration::from_millis(20)).await;
+            let now = now_us();
+            let mut s = sh.lock().unwrap();
+            if now >= c.watchdog_us {
+                s.watchdog_hit = 1;
+                break;
+            }
+            let c_done = s.ep[0].tasks_done == s.ep[0].tasks_started;
+            let s_done = s.ep[1].tasks_done == s.ep[1].tasks_started;
+            let client_dead = conn.is_none() || s.ep[0].closed == 1;
+            let server_dead = s.ep[1].conn_started == 0 || s.ep[1].closed == 1;
+            let all_seen = s.ep[1].tasks_started == expected_server_tasks;
+            if c_done && s_done && ((all_seen && !client_dead) || (client_dead && server_dead)) {
+                break;
+            }
+        }
+        if let Some(conn) = &conn {
+            let dead = sh.lock().unwrap().ep[0].closed == 1;
+            if c.close_at_end && !dead {
+                conn.close(7u32.into());
+                time::delay(Duration::from_millis(1500)).await;
+            }
+        }
+        drop(conn);
+    });
+    Ok(())
+}
+
+fn push_ep(out: &mut Vec<V>, e: &Ep) {
+    out.extend_from_slice(&[
+        e.conn_started as V,
+        e.closed as V,
+        e.closed_class as V,
+        e.closed_us as V,
+        e.last_rx_us as V,
+        e.idle_base_us as V,
+        e.max_pto_us as V,
+        e.tasks_started as V,
+        e.tasks_done as V,
+        e.last_task_done_us as V,
+    ]);
+}
+
+fn push_flows(out: &mut Vec<V>, s: &Shared) {
+    let mut flows = s.flows.clone();
+    flows.sort_by_key(|f| (f.sid, f.dir));
+    out.push(flows.len() as V);
+    for f in &flows {
+        out.extend_from_slice(&[
+            f.sid as V,
+            f.dir as V,
+            f.expected as V,
+            f.written as V,
+            f.fin_written as V,
+            f.read as V,
+            f.first_wrong,
+            f.clean_eos as V,
+            f.err_w as V,
+            f.err_r as V,
+        ]);
+    }
+}
+
+fn new_shared(seed: u64) -> Sh {
+    let mut s = Shared { seed, ..Default::default() };
+    s.ep[0].handshake_rx_us = -1;
+    s.ep[1].handshake_rx_us = -1;
+    Arc::new(Mutex::new(s))
+}
+
+fn server_tls(extra_chain: u64) -> (String, String) {
+    // a longer certificate chain: the leaf followed by copies of other test certificates
+    let mut chain = String::from(certificates::CERT_PEM);
+    for i in 0..extra_chain {
+        if !chain.ends_with('\n') {
+            chain.push('\n');
+        }
+        chain.push_str(if i % 2 == 0 { certificates::CERT_PKCS1_PEM } else { certificates::UNTRUSTED_CERT_PEM });
+    }
+    (chain, String::from(certificates::KEY_PEM))
+}
+
+// ------------------------------------------------------------------------------------------
+// e2e_stream
+// ------------------------------------------------------------------------------------------
+//
+// case: [seed, drop_pm, dup_pm, corrupt_pm, jitter_ms, max_udp, n_bidi, bytes, stream_window,
+//        conn_window, max_streams, chunk, read_size, blackhole_after_ms, blackhole_len_ms (0 = forever),
+//        n_uni, delay_ms, idle_ms, fault_until_ms, close_at_end, finish_mode]
+//
+// output: [1, watchdog_hit, sim_end_us, last_progress_us, connect_ok, n_bidi, n_uni, idle_ms, perm_bh,
+//          client: 10 ints, server: 10 ints (push_ep),
+//          n_flows, flows x 10, n_opened, opened stream ids,
+//          capped, n_records, records x 11]
+
+fn run_sim(net_cfg: NetCfg, app: AppCfg, sh: Sh, extra: impl FnOnce(&Handle, std::net::SocketAddr) -> io::Result<()>, chain: u64) -> (u64, Arc<Mutex<[u64; INJ_KINDS]>>) {
+    let net = Net::new(net_cfg, sh.clone());
+    let injected = net.injected.clone();
+    let sh2 = sh.clone();
+    let end = test_seed(net, app.seed, move |handle| {
+        let addr = start_server(handle, &app, &sh2, server_tls(chain))?;
+        extra(handle, addr)?;
+        start_client(handle, &app, &sh2, addr)?;
+        Ok(())
+    })
+    .expect("simulation setup");
+    (end.as_micros() as u64, injected)
+}
+
+fn e2e_stream(input: &[V]) -> Vec<V> {
+    let mut c = Cur::new(input);
+    let seed = c.u64();
+    let drop_pm = c.u64().min(1000);
+    let dup_pm = c.u64().min(1000);
+    let corrupt_pm = c.u64().min(1000);
+    let jitter_ms = c.u64().min(2000);
+    let max_udp = c.u64().clamp(1200, 65535) as usize;
+    let n_bidi = c.u64().min(64);
+    let bytes = c.u64().min(400_000);
+    let stream_window = c.u64().clamp(1, u32::MAX as u64);
+    let conn_window = c.u64().clamp(1, u32::MAX as u64);
+    let max_streams = c.u64().clamp(1, 1000);
+    let chunk = c.u64().clamp(1, 1 << 20);
+    let read_size = c.u64().min(1 << 20);
+    let bh_after_ms = c.u64();
+    let bh_len_ms = c.u64();
+    let n_uni = c.u64().min(64);
+    let delay_ms = c.u64().clamp(1, 2000);
+    let idle_ms = c.u64().clamp(1000, 600_000);
+    let fault_until_ms = c.u64();
+    let close_at_end = c.u64() != 0;
+    let finish_mode = c.u64().min(1);
+
+    let sh = new_shared(seed);
+    let app = AppCfg {
+        seed,
+        n_bidi,
+        n_uni,
+        bytes,
+        stream_window,
+        conn_window,
+        max_streams,
+        chunk,
+        read_size,
+        idle_ms,
+        watchdog_us: 900_000_000,
+        close_at_end,
+        full_records: true,
+        finish_mode,
+    };
+    let net = NetCfg {
+        seed,
+        drop_pm,
+        dup_pm,
+        corrupt_pm,
+        jitter_ms,
+        delay_ms,
+        max_udp,
+        fault_until_us: fault_until_ms * 1000,
+        bh_start_us: bh_after_ms * 1000,
+        bh_end_us: if bh_len_ms == 0 { u64::MAX } else { (bh_after_ms + bh_len_ms) * 1000 },
+        ..Default::default()
+    };
+    let (end_us, _) = run_sim(net, app, sh.clone(), |_, _| Ok(()), 0);
+
+    let s = sh.lock().unwrap();
+    let perm_bh = (bh_after_ms > 0 && bh_len_ms == 0) as V;
+    let mut out: Vec<V> = vec![
+        1,
+        s.watchdog_hit as V,
+        end_us as V,
+        s.last_progress_us as V,
+        s.connect_ok as V,
+        n_bidi as V,
+        n_uni as V,
+        idle_ms as V,
+        perm_bh,
+    ];
+    push_ep(&mut out, &s.ep[0]);
+    push_ep(&mut out, &s.ep[1]);
+    push_flows(&mut out, &s);
+    out.push(s.opened.len() as V);
+    out.extend(s.opened.iter().map(|x| *x as V));
+    out.push(s.capped as V);
+    out.push(s.records.len() as V);
+    for r in &s.records {
+        out.extend_from_slice(r);
+    }
+    out
+}
+
+fn main() {
+    h_common::main_with(&[("e2e_stream", e2e_stream)]);
+}
